@@ -1,2 +1,17 @@
-"""Per-property evidence texts."""
+"""Per-property texts for MANIFEST.json and evidence files."""
+
+_T = "static analysis over type-checked MIR (rustc_private fact extractor + repository-specific CFG/dataflow rules)"
+
 INFO = {}
+NOT_APPLICABLE = {}
+
+
+def _p(pid, claim, note, technique, explanation=None, level="other"):
+    INFO[pid] = {"claim": claim, "note": note, "technique": technique, "explanation": explanation or claim, "level": level}
+
+
+_N = ("Trusted base: rustc type checker/MIR construction/const-eval, faithful serialisation by mirfacts, hand-transcribed spec tables. "
+      "Generic MIR (D, T, SPI opaque): user callbacks/devices are assumed to return and not to touch library state. Paths are over-approximated. ")
+
+for _pid in ["C%02d" % i for i in range(1, 20)]:
+    _p(_pid, "structural necessary conditions decided on every path of the anchored functions; the end-to-end behaviour is not claimed (see DESIGN.md)", _N, _T)
